@@ -372,9 +372,13 @@ func keyB64(k ssh.PublicKey) string { return base64.StdEncoding.EncodeToString(k
 
 // goMatches asks the package which lines match (host,port): an unknown key
 // makes the callback list every matching line in KeyError.Want.
-func (e *khEnv) goMatches(cb ssh.HostKeyCallback, paths []string, f *khFile, host, port string) ([]int, bool) {
-	q := &khQuery{Host: host, Port: port, Remote: &net.TCPAddr{IP: net.ParseIP("198.51.100.7"), Port: 22}}
-	o, bad, _ := goOutcome(cb, paths, f, q, e.keys[khProbeKey], keyB64)
+func (e *khEnv) goMatches(cb ssh.HostKeyCallback, paths []string, f *khFile, tmpl *khQuery) ([]int, bool) {
+	q := *tmpl
+	q.Cert, q.KeyName = nil, khProbeKey
+	if q.Remote == nil {
+		q.Remote = &net.TCPAddr{IP: net.ParseIP("198.51.100.7"), Port: 22}
+	}
+	o, bad, _ := goOutcome(cb, paths, f, &q, e.keys[khProbeKey], keyB64)
 	if o.Kind != kr.KeyErr || bad != "" {
 		return nil, false
 	}
@@ -394,14 +398,14 @@ func (e *khEnv) singlePatternGo(pat, host, port string) (bool, bool) {
 	}
 	f := &khFile{contents: []string{pat + " " + keyText(e.pool, "ed1") + "\n"}}
 	f.parse()
-	w, ok := e.goMatches(cb, []string{path}, f, host, port)
+	w, ok := e.goMatches(cb, []string{path}, f, &khQuery{Host: host, Port: port})
 	return len(w) > 0, ok
 }
 
 // classify finds the most specific stable class for a disagreement.
 func (e *khEnv) classify(cb ssh.HostKeyCallback, paths []string, f *khFile, q *khQuery, got kr.Outcome, want []string) string {
-	goLines, ok := e.goMatches(cb, paths, f, q.Host, q.Port)
-	if ok && !q.AddrEmpty {
+	goLines, ok := e.goMatches(cb, paths, f, q)
+	if ok {
 		gm := map[int]bool{}
 		for _, n := range goLines {
 			gm[n] = true
@@ -435,12 +439,16 @@ func (e *khEnv) classify(cb ssh.HostKeyCallback, paths []string, f *khFile, q *k
 			return "knownhosts-match:interaction:" + feat
 		}
 	}
-	sort.Strings(want)
-	w := strings.Join(want, "|")
-	for _, d := range "0123456789" {
-		w = strings.ReplaceAll(w, string(d), "")
+	kinds := map[string]bool{}
+	for _, w := range want {
+		k, _, _ := strings.Cut(w, "[")
+		kinds[k] = true
 	}
-	w = strings.ReplaceAll(w, ",", "")
+	var ks []string
+	for k := range kinds {
+		ks = append(ks, k)
+	}
+	sort.Strings(ks)
 	kind := "plain-key"
 	if q.Cert != nil {
 		kind = "certificate"
@@ -448,7 +456,11 @@ func (e *khEnv) classify(cb ssh.HostKeyCallback, paths []string, f *khFile, q *k
 	if q.AddrEmpty {
 		kind += ":remote-only"
 	}
-	return fmt.Sprintf("knownhosts-decision:%s:got-%s-want-%s", kind, got.Kind, w)
+	key := fmt.Sprintf("knownhosts-decision:%s:got-%s-want-%s", kind, got.Kind, strings.Join(ks, "|"))
+	if kinds[got.Kind] {
+		key += ":other-want-lines"
+	}
+	return key
 }
 
 func TestC42(t *testing.T) {
@@ -998,7 +1010,7 @@ func (e *khEnv) keygenF(cb ssh.HostKeyCallback, paths []string, f *khFile, qs []
 			m.Count("sshkeygen_F_open_reading_skipped", 1)
 			continue
 		}
-		goLines, ok := e.goMatches(cb, paths, f, q.Host, q.Port)
+		goLines, ok := e.goMatches(cb, paths, f, q)
 		if !ok {
 			continue
 		}
